@@ -25,8 +25,7 @@ From Kardia Require Import Base.Int64 C19.Model C19.ProofsBasic C19.ProofsVerify
 Import ListNotations.
 Local Open Scope Z_scope.
 
-(** Pool.verify = VOk means exactly what the property asks of evidence (except the validator
-    index, see [C19_accept_sound_index_refuted]). *)
+(** Pool.verify = VOk means exactly what the property asks of evidence. *)
 Theorem C19_verify_sound :
   forall p c e, verify p c e = VOk ->
     sound (st_chain (p_state p)) c e /\ ~ expired (p_state p) (e_height e) (e_time e).
@@ -40,8 +39,10 @@ Print Assumptions C19_verify_sound.
     piece of evidence of an accepted block passed ValidateBasic, is not marked committed, does
     not occur twice in the block, and is either verified now (sound, not expired) or has the
     key of a pending entry that is sound (the same bytes unless Keccak collides).
-    PARTIAL with respect to the property text in two respects, both refuted below: the
-    validator index, and evidence coming from consensus (a hypothesis in [ops_ok]). *)
+    [double_sign] includes that both votes carry the validator's index in that set.
+    PARTIAL with respect to the property text in one respect: evidence coming from consensus is
+    not verified by the pool (a hypothesis in [ops_ok]); [C19_generated_accepted_refuted] shows
+    tryAddVote does not discharge it. *)
 Theorem C19_accept_sound_partial :
   forall cid n0 ops n obs,
     Inv cid n0 -> ops_ok cid n0 ops -> run n0 ops = (n, obs) ->
@@ -55,7 +56,8 @@ Theorem C19_accept_sound_partial :
        forall e, In e es ->
          validate_basic e = true /\ is_committed (n_pool n) e = false /\
          ((sound cid (n_chain n) e /\ ~ expired (p_state (n_pool n)) (e_height e) (e_time e)) \/
-          (exists x, In x (p_pending (n_pool n)) /\ ekey x = ekey e /\ sound cid (n_chain n) x))).
+          (exists x, In x (p_pending (n_pool n)) /\ ekey x = ekey e /\ sound cid (n_chain n) x /\
+                     is_expired (p_state (n_pool n)) (e_height e) (e_time e) = false))).
 Proof. exact accept_sound_partial_all. Qed.
 Print Assumptions C19_accept_sound_partial.
 
@@ -63,12 +65,6 @@ Theorem C19_accept_sound_satisfiable : Inv 1 node0 /\ sound 1 chain2 evOK /\
   map o_res (snd (run node0 history1)) = [ROk; ROk; ROk; ROk; ROk; RCommitted].
 Proof. exact (conj node0_inv (conj evOK_sound (proj1 history1_results))). Qed.
 Print Assumptions C19_accept_sound_satisfiable.
-
-(** the full statement also demands equal validator indices; VerifyDuplicateVote never looks
-    at them *)
-Theorem C19_accept_sound_index_refuted : ~ accept_sound_with_index.
-Proof. exact accept_sound_with_index_refuted. Qed.
-Print Assumptions C19_accept_sound_index_refuted.
 
 (** No history marks the same evidence (key = height and hash of the bytes) committed twice,
     and none that was committed before the history started; CheckEvidence rejects a list that
@@ -84,11 +80,15 @@ Theorem C19_once :
 Proof. exact once_all. Qed.
 Print Assumptions C19_once.
 
-(** ... but "once" is per byte string: the same two signed votes with another (unsigned,
-    unchecked) validator index are new evidence and are committed again *)
-Theorem C19_once_per_double_sign_refuted : ~ once_per_double_sign.
-Proof. exact once_per_double_sign_refuted. Qed.
-Print Assumptions C19_once_per_double_sign_refuted.
+(** the same two signed votes with another validator index (another hash and key) are rejected
+    after the original was committed (commit be61253) *)
+Theorem C19_replay_with_other_index_rejected :
+  v_sig (e_a evReplay) = v_sig (e_a evOK) /\ v_sig (e_b evReplay) = v_sig (e_b evOK) /\
+  map o_res (snd (run node0 history_replay)) =
+    [ROk; ROk; ROk; ROk; RInvalid VIndex; RInvalid VIndex] /\
+  commit_log node0 history_replay = [(2, 500%N)].
+Proof. exact replay_with_other_index_rejected. Qed.
+Print Assumptions C19_replay_with_other_index_rejected.
 
 (** ... and the hypothesis on consensus evidence in [ops_ok] is needed: AddEvidenceFromConsensus
     does not consult the committed family *)
@@ -97,15 +97,19 @@ Theorem C19_once_needs_fresh_consensus_evidence :
 Proof. exact cons_of_committed_evidence_commits_twice. Qed.
 Print Assumptions C19_once_needs_fresh_consensus_evidence.
 
-(** Evidence built by NewDuplicateVoteEvidence from two votes a vote set reports as
+(** PARTIAL: C19_generated_accepted holds under the hypothesis that the generator uses the
+    header time of the block of the votes' height and the validator set of that height (with
+    the votes carrying the validator's index in that set); [C19_generated_accepted_refuted]
+    shows that tryAddVote does not.
+    Evidence built by NewDuplicateVoteEvidence from two votes a vote set reports as
     conflicting, with the validator set of their height and THE HEADER TIME OF THE BLOCK OF
     THEIR HEIGHT, passes ValidateBasic and the verify of every pool over the same chain for
     which it has not expired; and no other timestamp is accepted. *)
-Theorem C19_generated_accepted :
+Theorem C19_generated_accepted_partial :
   (forall p c hash size va vb ts vs,
      conflicting_votes (st_chain (p_state p)) va vb ->
      vals_at c (Z.of_N (v_height va)) = Some vs ->
-     find_val (v_addr va) vs <> None ->
+     (exists idx val, find_idx (v_addr va) vs 0 = Some (idx, val) /\ v_idx va = idx /\ v_idx vb = idx) ->
      block_time c (Z.of_N (v_height va)) = Some ts ->
      ~ expired (p_state p) (Z.of_N (v_height va)) ts ->
      exists e, new_duplicate_vote_evidence hash size va vb ts vs = Some e /\
@@ -114,7 +118,7 @@ Theorem C19_generated_accepted :
      new_duplicate_vote_evidence hash size va vb ts vs = Some e ->
      verify p c e = VOk -> e_time e = ts /\ block_time c (e_height e) = Some ts).
 Proof. exact (conj generated_verifies generated_needs_block_time). Qed.
-Print Assumptions C19_generated_accepted.
+Print Assumptions C19_generated_accepted_partial.
 
 (** tryAddVote uses the weighted median of the node's own LastCommit (and cs.Validators):
     its evidence is rejected by a node whose block of that height carries another median *)
@@ -148,21 +152,20 @@ Theorem C19_pending_until_committed :
 Proof. exact (conj step_pending pending_evidence_all). Qed.
 Print Assumptions C19_pending_until_committed.
 
-(** ... but the proposer (CreateProposalBlock) passes a count as the byte cap: with the
-    default parameters nothing is ever proposed *)
-Theorem C19_pending_proposed_by_default_refuted : ~ pending_is_proposed_by_default.
-Proof. exact pending_is_proposed_by_default_refuted. Qed.
-Print Assumptions C19_pending_proposed_by_default_refuted.
-
-(** ... and correct nodes with the same chain, state and committed set can disagree on a
-    block's evidence (lazily pruned, expired evidence passes the fast path) *)
-Theorem C19_block_validity_agreed_refuted : ~ block_validity_agreed.
-Proof. exact block_validity_agreed_refuted. Qed.
-Print Assumptions C19_block_validity_agreed_refuted.
+(** the proposer's selection: with a byte cap that admits the first pending entry (the default
+    cap is the 104857-byte budget since commit e536522) at least that entry is proposed *)
+Theorem C19_pending_proposed :
+  forall p e t cap,
+    p_pending p = e :: t -> p_size p <> 0 -> forallb validate_basic (p_pending p) = true ->
+    wrap64 (0 + 1 + e_size e + sov (e_size e)) <= cap ->
+    exists l, fst (pending_evidence p cap) = e :: l.
+Proof. exact pending_first_proposed. Qed.
+Print Assumptions C19_pending_proposed.
 
 (** source constants (regenerated on every run) *)
 Theorem C19_source_constants :
   default_max_age_num_blocks = 100000 /\ default_max_age_duration = 172800000000000 /\
-  default_proposal_pending_cap = default_evidence_max_bytes / max_evidence_bytes_denominator / max_evidence_bytes.
+  default_proposal_pending_cap = default_evidence_max_bytes / max_evidence_bytes_denominator /\
+  default_proposal_evidence_count = default_proposal_pending_cap / max_evidence_bytes.
 Proof. exact source_constants_all. Qed.
 Print Assumptions C19_source_constants.
